@@ -225,6 +225,13 @@ func build(sim *chain.Sim, st chain.Step) (*input, *chain.BlockCtx, error) {
 			}
 		}
 	}
+	// members that are not transmitted hold, in the block built in memory, a value no decoder fills in (and not the one
+	// the library is to derive): copies of the block then differ in memory and must not differ in effect
+	for i := range ctx.V1 {
+		for j := range ctx.V1[i].FileContractRevisions {
+			ctx.V1[i].FileContractRevisions[j].FileContract.Payout = memoryOnlyPayout
+		}
+	}
 	bs := sim.Supplement(ctx.V1)
 	b := sim.Seal(ctx.V1, ctx.V2)
 	return &input{S: sim.CS, B: b, Supp: bs}, ctx, nil
@@ -530,7 +537,7 @@ func work() {
 		replay(c)
 		return
 	}
-	c.Rule("Cases: every block (with its supplement and parent state) of TLC-simulated Ledger behaviours on three network shapes — valid blocks and blocks ending in a defective transaction of the families unbalanced, auth, reuse, intx, timing, revision, proof, formation; reverts and re-applies included — taken before anything has validated it. Per case 6 entry points (validate, per-transaction path, element proofs, apply, revert, encode) x 5 memories (original twice, decoded via multiproof, Share()d proofs, DeepCopy/Copy, JSON; a copy of a block the specification accepts is filed under the key of the original even when its content differs) plus the call of every pooled hashing entry point (block contents and a synthetic set; once sequentially before the concurrent phase, then concurrently on every memory) run from G goroutines (G cycles through 1, 2, 8, 32), under the race detector. For every valid block with non-ephemeral elements additionally 2 update experiments (the block's own update; an empty next block's) x 6 copies of its element proofs obtained differently (independent allocation, multiproof decode, plain decode, JSON, DeepCopy/Copy, Share()d then copied): one UpdateElementProof call per element and copy (logged as M with audits of the neighbouring cells, the other copies and the source), then ValidateTransactionElements / leaf membership of every updated copy. Nine fixed behaviours (v2 storage proof among payments, renewal, expiration, v1 contract life cycle; two revisions of one contract in one block, revision then renewal, two storage proofs under one chain index element; v1 signatures with field-by-field coverage alone and followed by v2 blocks) run among the drawn ones of their shape, with 8 or 32 callers. evaluations = calls executed and logged (entry point calls + UpdateElementProof calls + validations after update); distinct_nontrivial = distinct keys <<function, content hash of inputs>> that were called at least twice (the agreement clause was exercised), from different goroutines or different copies. The address probes of copy/decode results are counted in coverage (copy_operations_probed), not in evaluations.")
+	c.Rule("Cases: every block (with its supplement and parent state) of TLC-simulated Ledger behaviours on three network shapes — valid blocks and blocks ending in a defective transaction of the families unbalanced, auth, reuse, intx, timing, revision, proof, formation; reverts and re-applies included — taken before anything has validated it. Per case 6 entry points (validate, per-transaction path, element proofs, apply, revert, encode) x 5 memories (original twice, decoded via multiproof, Share()d proofs, DeepCopy/Copy, JSON; a copy of a block the specification accepts is filed under the key of the original even when its content differs) plus the call of every pooled hashing entry point (block contents and a synthetic set; once sequentially before the concurrent phase, then concurrently on every memory) run from G goroutines (G cycles through 1, 2, 8, 32), under the race detector. For every valid block with non-ephemeral elements additionally 2 update experiments (the block's own update; an empty next block's) x 6 copies of its element proofs obtained differently (independent allocation, multiproof decode, plain decode, JSON, DeepCopy/Copy, Share()d then copied): one UpdateElementProof call per element and copy (logged as M with audits of the neighbouring cells, the other copies and the source), then ValidateTransactionElements / leaf membership of every updated copy. Twelve fixed behaviours (v1 contract formed and revised / revised twice / revised and proved in one block, the un-transmitted payout of every v1 revision holding a value in memory that no decoder fills in; v2 storage proof among payments, renewal, expiration, v1 contract life cycle; two revisions of one contract in one block, revision then renewal, two storage proofs under one chain index element; v1 signatures with field-by-field coverage alone and followed by v2 blocks) run among the drawn ones of their shape, with 8 or 32 callers. evaluations = calls executed and logged (entry point calls + UpdateElementProof calls + validations after update); distinct_nontrivial = distinct keys <<function, content hash of inputs>> that were called at least twice (the agreement clause was exercised), from different goroutines or different copies. The address probes of copy/decode results are counted in coverage (copy_operations_probed), not in evaluations.")
 	c.Assume("the digest (reflection walk over every field, slice up to capacity, pointer and interface; sha256) changes whenever memory reachable from the inputs changes")
 	c.Assume("data races are found by the Go race detector while the trace is recorded, not by the model")
 	c.Assume("honest v1 supplements (chain harness store)")
@@ -612,6 +619,11 @@ func work() {
 	for _, k := range []string{"revision+revision", "resolution+revision", "proof-index+proof-index"} {
 		if t.refs[k] == 0 {
 			c.Infra("vacuity: no accepted block whose v2 part references one accumulator element twice as %s went through the multiproof codec", k)
+		}
+	}
+	for _, k := range []string{"v1:formed+revised", "v1:revised+revised", "v1:revised+proved"} {
+		if t.refs[k] == 0 {
+			c.Infra("vacuity: no accepted v1 block with a contract %s in one block whose revisions hold a payout in memory that the decoders do not fill in", strings.TrimPrefix(k, "v1:"))
 		}
 	}
 	c.Cov("cases_with_v1_signatures_of_partial_coverage", t.partialCases)
